@@ -65,19 +65,19 @@ let parse_op (kinds : (okind * int) list) (w : string) : Tok.top =
   | "dt" -> Tok.TDropTx (ob 0, nat 1)
   | "ci" -> Tok.TChanInfo (ob 0)
   | "ac" -> Tok.TAcq (n_of_int 70, false, ob 0, n_of_string (arg 1))
-  | "ta" -> Tok.TTry (n_of_int 71, ob 0, n_of_string (arg 1))
+  | "ta" -> Tok.TTry (n_of_int 71, true, ob 0, n_of_string (arg 1))
   | "ad" -> Tok.TAdd (ob 0, n_of_string (arg 1))
   | "rl" -> Tok.TRel (ob 0)
   | "fg" -> (match fst (kind_of 0) with KSem -> Tok.TForget (ob 0) | _ -> Tok.TForget nowhere)
   | "sc" -> Tok.TSemClose (ob 0)
   | "si" -> Tok.TSemInfo (ob 0)
   | "lk" -> Tok.TAcq (n_of_int 77, true, ob 0, n_of_int 1)
-  | "tl" -> Tok.TTry (n_of_int 78, ob 0, n_of_int 1)
+  | "tl" -> Tok.TTry (n_of_int 78, false, ob 0, n_of_int 1)
   | "rd" -> Tok.TAcq (n_of_int 79, true, ob 0, n_of_int 1)
-  | "tR" -> Tok.TTry (n_of_int 87, ob 0, n_of_int 1)
+  | "tR" -> Tok.TTry (n_of_int 87, false, ob 0, n_of_int 1)
   | "wr" | "tW" ->
     let k = match fst (kind_of 0) with KRw k -> k | _ -> failwith ("not a rwlock in " ^ w) in
-    if pre = "wr" then Tok.TAcq (n_of_int 86, true, ob 0, k) else Tok.TTry (n_of_int 88, ob 0, k)
+    if pre = "wr" then Tok.TAcq (n_of_int 86, true, ob 0, k) else Tok.TTry (n_of_int 88, false, ob 0, k)
   | "nf" -> Tok.TNotified (ob 0)
   | "en" -> Tok.TEnable (nat 0)
   | "an" -> Tok.TAwaitN (nat 0)
